@@ -35,7 +35,8 @@ def own_language(name, program):
 def h_pipeline(eng, tier, sym_draws):
     # generated programs only: the hand-built fixtures of the test suite are not all well-formed programs
     # (fixture/program1 constructs a class with an argument it has no field for)
-    names = [n for n in members(tier) if n.startswith('generated/') and (tier != 'quick' or n.endswith('seed1'))]
+    names = [n for n in members(tier) if (n.startswith('generated/') and (tier != 'quick' or n.endswith('seed1')))
+             or n.startswith('template/')]
     pname = names[int(eng.fresh_int(0, len(names) - 1, 'member'))]
     p = fresh(pname)
     lang = own_language(pname, p)
@@ -73,7 +74,8 @@ def h_pipeline(eng, tier, sym_draws):
         except Exception:       # noqa -- reported by part 0
             r1 = None
         if r1 is not None:
-            sym = installed(eng, max_draws=3000, max_sym_draws=sym_draws, sym_filter=MUTATION_CHOICES)
+            sym = installed(eng, max_draws=3000, max_sym_draws=3 if pname.startswith('template/') else sym_draws,
+                            sym_filter=MUTATION_CHOICES)
             r2, e2 = stage('type-overwriting-of-erased', lambda: P.overwrite_split(r1, lang, FixedRandom(), sym)[0])
             if r2 is not None:
                 with FixedRandom():
@@ -81,6 +83,71 @@ def h_pipeline(eng, tier, sym_draws):
     eng.event('pipeline')
     eng.notes['sample'] = case
     obs.append(Ob('pipeline-done', True))
+    return obs
+
+
+def h_word_pool(eng, K, lang):
+    """the identifier pool across programs: the real RandomUtils on a reduced pool, a symbolic history of
+    word() / reset_word_pool() calls (hephaestus.gen_program resets the pool before every program); after a
+    reset the whole initial pool is available again, and word() fails only on a genuinely exhausted pool"""
+    from src import utils
+    r = object.__new__(utils.RandomUtils)      # no __init__: the module-level name `random` is the singleton by now
+    initial = {'zqa', 'zqb', 'zqc'}
+    r.INITIAL_WORDS = set(initial)
+    r.WORDS = set(initial)
+    if bool(eng.fresh_bool('reserved_words_removed')):
+        r.remove_reserved_words(lang)
+
+    class R:
+        def choice(self, seq):
+            seq = sorted(seq)
+            return seq[eng.choice_index(len(seq), 'word')]
+    r.r = R()
+    since_reset, hist, obs = 0, [], []
+    for i in range(K):
+        if bool(eng.fresh_bool('op%d_is_reset' % i)):
+            r.reset_word_pool()
+            since_reset = 0
+            hist.append('reset')
+            obs.append(Ob('identifier-pool|reset-restores-every-word', set(r.WORDS) == initial, dict(history=list(hist), pool=sorted(r.WORDS))))
+        else:
+            try:
+                hist.append(r.word())
+                since_reset += 1
+            except Exception as e:      # noqa
+                hist.append(repr(e)[:60])
+                obs.append(Ob('no-exception|identifier-pool|%s' % type(e).__name__, since_reset >= len(initial),
+                              dict(history=list(hist), drawn_since_reset=since_reset)))
+                break
+    eng.event('word-pool')
+    eng.notes['sample'] = dict(history=hist)
+    obs.append(Ob('identifier-pool|history-done', True))
+    return obs
+
+
+def h_type_params_count(eng, lang):
+    """gen_type_params for every requested count: no exception, and at least `count` type parameters (callers zip
+    the result with the type variables of the expected type)"""
+    from vlib.props.C17 import make_generator
+    from vlib.symrandom import config
+    count = int(eng.fresh_int(0, 4, 'count'))
+    mtp = int(eng.fresh_int(1, 4, 'max_type_params'))
+    # precondition (stated): the request fits the configured limit, or is the 4 of Function3<T1, T2, T3, R>
+    if not (count <= mtp or count == 4):
+        eng.event('type-params-count')
+        return [Ob('type-params|outside-precondition', True)]
+    for_function = bool(eng.fresh_bool('for_function'))
+    g = make_generator(lang, False, True)
+    case = dict(unit='gen_type_params', language=lang, count=count or None, max_type_params=mtp, for_function=for_function)
+    obs = []
+    with installed(eng, max_sym_draws=4) as rnd, config(limits__max_type_params=mtp, prob__bounded_type_parameters=0.5):
+        try:
+            tps = g.gen_type_params(count=count or None, for_function=for_function, blacklist=g._get_type_variable_names())
+            obs.append(Ob('type-params|at-least-the-requested-count', len(tps) >= count, dict(case, result=[str(t) for t in tps])))
+        except Exception as e:      # noqa
+            obs.append(Ob('no-exception|gen_type_params|%s' % type(e).__name__, False, dict(case, exception=repr(e)[:200], rng=list(rnd.log)[:6])))
+    eng.event('type-params-count')
+    eng.notes['sample'] = case
     return obs
 
 
@@ -96,17 +163,29 @@ def jobs(tier):
              'gen_func_call', 'gen_lambda', 'gen_is_expr']:
             extra = dict(nvars=0, with_nested=False) if unit in ('generate_expr', 'gen_func_call', 'gen_field_access', 'gen_lambda') \
                 else dict(nvars=1, with_nested=(tier != 'quick'))
-            if unit == 'gen_func_call':
-                extra['sym_draws'] = 3 if tier == 'quick' else 5
+            extra['sym_draws'] = (3 if tier == 'quick' else 5) if unit == 'gen_func_call' else (4 if tier == 'quick' else 6)
             out.append(Job('%s-%s' % (unit, lang), U.harness,
                            dict(lang=lang, unit=unit, aspect=ASPECT, max_depth=2, sym_depth=True, **extra),
                            split_depth=6, functions=U.FUNCS[unit], stubs=U.STUBS, require_events=['unit:%s' % unit],
                            budget_s=2400, crosscheck_every=500,
                            bounds='as the C01 unit, with the depth counter symbolic in 1..6 and max_depth = 2', outside=OUT))
+    from src import utils
+    from src.generators.generator import Generator
+    out.append(Job('identifier-pool-history', h_word_pool, dict(K=6 if tier == 'quick' else 8, lang='java'), split_depth=4,
+                   functions=[utils.RandomUtils.word, utils.RandomUtils.reset_word_pool, utils.RandomUtils.remove_reserved_words],
+                   require_events=['word-pool'], budget_s=600,
+                   bounds='pool of 3 identifiers; every history of %d word() / reset_word_pool() calls, every choice of word'
+                          % (6 if tier == 'quick' else 8), outside=OUT))
+    for lang in langs:
+        out.append(Job('type-params-count-%s' % lang, h_type_params_count, dict(lang=lang), split_depth=4,
+                       functions=[Generator.gen_type_params], require_events=['type-params-count'], budget_s=600,
+                       stubs=['src.utils.random -> symbolic RNG (first 4 draws; later draws take the first element)'],
+                       bounds='count in {None, 1..4}, max_type_params in 1..4 with count <= max_type_params or count == 4 '
+                              '(precondition: the request fits the limit, or is the Function3 special case)', outside=OUT))
     out.append(Job('pipeline-stages', h_pipeline, dict(tier=tier, sym_draws=1 if tier == 'quick' else 2), split_depth=2,
                    functions=[P.TypeErasure.visit_func_decl, P.TypeOverwriting.visit_func_decl], require_events=['pipeline'],
                    budget_s=2400, crosscheck_every=100, setup=lambda t=tier: members(t),
-                   bounds='every generated family member: translate / erase / translate / overwrite (first %d draws symbolic) / translate, '
+                   bounds='every generated family member and every template program (first 3 draws symbolic): translate / erase / translate / overwrite (first %d draws symbolic) / translate, '
                           'in the member\'s own language' % (1 if tier == 'quick' else 2), outside=OUT))
     return out
 
